@@ -431,7 +431,7 @@ static Result exec(const std::string& line) {
         bool hinted = bRing[rank] || std::find(bHints[rank].begin(), bHints[rank].end(), q) != bHints[rank].end();
         if (!hinted) {
           if (!expS.empty() || !expR.empty()) consistent = false;  // hints not consistent: property silent about q
-          if (itq != got.end() && fail.empty()) fail = who + "entry for a process that is not a hinted neighbour";
+          else if (itq != got.end() && fail.empty()) fail = who + "entry for a process sharing nothing";
           continue;
         }
         if (expS.empty() && expR.empty()) {
